@@ -9,6 +9,7 @@ import (
 	"crypto/sha512"
 	"encoding/binary"
 	"fmt"
+	"math/big"
 
 	"github.com/blinklabs-io/gouroboros/vrf"
 	"pgregory.net/rapid"
@@ -348,4 +349,134 @@ func c38Purity(rt *rapid.T, rec *evi.Recorder, cs map[string]any, seed, seedOrig
 		}
 	}
 	return true
+}
+
+// c38ScalarFamily is seed-independent on purpose: under one fixed key it proves nProofs
+// counter messages, and for the honest proofs tries the non-canonical re-encodings of the
+// response scalar: for every proof s+L and the largest s+k*L below 2^256, and for ALL proofs
+// whose s has top byte 0x00, 0x0f or 0x10 (s+L then has a top byte equal / adjacent to L's
+// top byte 0x10, the only place where a byte-wise comparison with L can go wrong) the whole
+// family s+L .. s+15L. The challenge c occupies exactly 16 bytes of the proof, so there is
+// no room for an alternative encoding of c. It then presents, behind the genuine (Gamma, c)
+// of a few proofs, scalars crafted around every byte-aligned boundary of L.
+func c38ScalarFamily(rec *evi.Recorder, nProofs int) {
+	seed := sha512.Sum512([]byte("c38 fixed key for the scalar family"))
+	pk, sk, err := vrf.KeyGen(seed[:32])
+	if err != nil {
+		rec.Violation("scalar-family:keygen-error", err.Error(), nil)
+		return
+	}
+	two256 := new(big.Int).Lsh(big1, 256)
+	classes := map[byte]int{}
+	full, evals := 0, 0
+	type kept struct{ proof, alpha []byte }
+	var keep []kept
+	try := func(proof, alpha []byte, s *big.Int, k int64) {
+		s2 := new(big.Int).Add(s, new(big.Int).Mul(big.NewInt(k), edL))
+		if s2.Cmp(two256) >= 0 {
+			return
+		}
+		p2 := append(clone(proof[:48]), leBytes(s2, 32)...)
+		evals++
+		out, err := vrf.VerifyAndHash(pk, p2, alpha)
+		if err == nil {
+			rec.Violation(fmt.Sprintf("accept:noncanonical-s:s-top-byte-%02x:plus-%dL", proof[79], k),
+				fmt.Sprintf("honest proof (fixed key, message %x) with s replaced by s+%d*L (top byte of s %#02x, of s+%dL %#02x) accepted, output %x", alpha, k, proof[79], k, p2[79], out),
+				map[string]any{"seed": evi.Hex(seed[:32]), "pk": evi.Hex(pk), "alpha": evi.Hex(alpha), "proof": evi.Hex(proof), "tampered_proof": evi.Hex(p2), "k": k})
+		}
+	}
+	for i := 0; i < nProofs; i++ {
+		var alpha [8]byte
+		binary.BigEndian.PutUint64(alpha[:], uint64(i))
+		proof, _, err := vrf.Prove(sk, alpha[:])
+		if err != nil {
+			rec.Violation("scalar-family:prove-error", err.Error(), nil)
+			return
+		}
+		if i < 4 {
+			if _, err := vrf.VerifyAndHash(pk, proof, alpha[:]); err != nil {
+				rec.Violation("scalar-family:genuine-rejected", err.Error(), map[string]any{"alpha": evi.Hex(alpha[:])})
+				return
+			}
+		}
+		s := leInt(proof[48:80])
+		top := proof[79]
+		classes[top]++
+		if top == 0x00 || top == 0x0f || top == 0x10 {
+			full++
+			for k := int64(1); k <= 16; k++ {
+				try(proof, alpha[:], s, k)
+			}
+			if len(keep) < 6 {
+				keep = append(keep, kept{proof, clone(alpha[:])})
+			}
+		} else {
+			try(proof, alpha[:], s, 1)
+			kmax := new(big.Int).Div(new(big.Int).Sub(new(big.Int).Sub(two256, big1), s), edL).Int64()
+			if kmax > 1 {
+				try(proof, alpha[:], s, kmax)
+			}
+		}
+	}
+	rec.EvalN(evals)
+	rec.SetExtra("n_scalar_family_proofs", nProofs)
+	rec.SetExtra("n_scalar_family_full_families", full)
+	rec.SetExtra("n_scalar_family_s_top_byte_00", classes[0x00])
+	rec.SetExtra("n_scalar_family_s_top_byte_0f", classes[0x0f])
+	rec.SetExtra("n_scalar_family_s_top_byte_10", classes[0x10])
+	if classes[0x00] < 8 {
+		rec.Violation("scalar-family:harness-too-few-top-byte-00", fmt.Sprintf("harness: only %d honest proofs with s top byte 0x00 among %d", classes[0x00], nProofs), nil)
+	}
+	if len(keep) > 0 {
+		rec.NonTrivial("scalar-family", map[string]any{"kind": "fixed-key scalar family", "proofs": nProofs, "full_families": full, "example_proof_s_top_byte_00": evi.Hex(keep[0].proof)})
+	}
+
+	// crafted scalars around the byte-aligned boundaries of L = 2^252 + Llow, behind genuine (Gamma, c)
+	lLow := new(big.Int).Mod(edL, new(big.Int).Lsh(big1, 128))
+	top10 := new(big.Int).Lsh(big.NewInt(0x10), 248)
+	var crafted []*big.Int
+	add := func(v *big.Int) {
+		if v.Sign() >= 0 && v.Cmp(two256) < 0 {
+			crafted = append(crafted, v)
+		}
+	}
+	for _, base := range []*big.Int{edL, new(big.Int).Sub(edL, big1), new(big.Int).Add(edL, big1)} {
+		add(base)
+		for j := 16; j <= 30; j++ {
+			b := new(big.Int).Lsh(big1, uint(8*j))
+			add(new(big.Int).Add(base, b))
+			add(new(big.Int).Add(base, new(big.Int).Lsh(big.NewInt(0xff), uint(8*j))))
+		}
+		for j := 0; j < 16; j++ {
+			add(new(big.Int).Add(base, new(big.Int).Lsh(big1, uint(8*j))))
+			add(new(big.Int).Sub(base, new(big.Int).Lsh(big1, uint(8*j))))
+		}
+	}
+	for _, low := range []*big.Int{big0, big1, new(big.Int).Sub(lLow, big1), lLow, new(big.Int).Add(lLow, big1), new(big.Int).Sub(new(big.Int).Lsh(big1, 128), big1)} {
+		add(new(big.Int).Add(top10, low))
+		for _, j := range []int{16, 23, 30} {
+			add(new(big.Int).Add(new(big.Int).Add(top10, low), new(big.Int).Lsh(big1, uint(8*j))))
+		}
+		add(new(big.Int).Add(new(big.Int).Lsh(big.NewInt(0x0f), 248), low))
+		add(new(big.Int).Add(new(big.Int).Lsh(big.NewInt(0x11), 248), low))
+	}
+	add(new(big.Int).Sub(two256, big1))
+	add(new(big.Int).Lsh(big1, 252))
+	add(new(big.Int).Lsh(big1, 255))
+	n := 0
+	for _, kp := range keep {
+		for _, v := range crafted {
+			p2 := append(clone(kp.proof[:48]), leBytes(v, 32)...)
+			if bytes.Equal(p2, kp.proof) {
+				continue
+			}
+			n++
+			if acc, how, _ := vrfAccepts(pk, p2, kp.alpha); acc {
+				rec.Violation("accept:crafted-s-near-L", fmt.Sprintf("proof with the response scalar replaced by %x accepted: %s", leBytes(v, 32), how),
+					map[string]any{"pk": evi.Hex(pk), "alpha": evi.Hex(kp.alpha), "proof": evi.Hex(kp.proof), "tampered_proof": evi.Hex(p2)})
+			}
+		}
+	}
+	rec.EvalN(n)
+	rec.SetExtra("n_crafted_scalars_near_L", n)
 }
